@@ -1990,6 +1990,13 @@ impl Parser {
                     let ty = Self::r#type(child)?;
                     type_vec.push(ty);
                 }
+                Rule::open_ended_type => {
+                    return Err(new_err(
+                        child.as_span(),
+                        &input.user_data().get_source_file_name(),
+                        "a spread type `T...` is only supported as the sole element of a list type, like `[T...]`".to_owned(),
+                    ));
+                }
                 other_rule => unreachable!("{other_rule:?}"),
             }
         }
